@@ -152,6 +152,9 @@ func printResult(res *FnResult, verbose bool) {
 		}
 		if verbose || !o.ok() {
 			fmt.Printf("  %s %-7s %-6s %5.2fs %s   [%s]\n", st, o.Result, o.Solver, o.TimeS, o.Name, o.Src)
+			if !o.ok() {
+				fmt.Printf("        at %s\n", o.Pos)
+			}
 			if !o.ok() && verbose {
 				fmt.Println(indent(trimModel(o.Model), "        "))
 			}
